@@ -214,6 +214,24 @@ def gen_case(rnd):
         return {'adapter': adapter, 'name': name, 'tag': 'v1.0.0', 'down': True, 'pages': [], 'ts': []}, None, []
     pages_json = []
     j, text = gen_body(rnd, adapter, wellformed)
+    if adapter == 'github' and rnd.random() < 0.3:
+        # a full page (GitHub sends 30 releases by default, up to 100): tags whose text order differs from their dates
+        # (two-digit components), a few of them without a usable date
+        n = rnd.choice([25, 30, 30, 60, 100])
+        rels = []
+        for i in range(n):
+            tag = 'v%d.%d.%d' % (i // 12 + 1, (i % 12) + (5 if rnd.random() < 0.3 else 0), rnd.choice([0, 0, 1, 10]))
+            k = rnd.random()
+            m = [('tag_name', tag)]
+            if k < 0.1:
+                m.append(('published_at', None))
+            elif k < 0.15:
+                m.append(('published_at', 'not a date'))
+            elif k < 0.95:
+                m.append(('published_at', '20%02d-%02d-%02dT%02d:00:00Z' % (10 + i // 12, 1 + i % 12, 1 + rnd.randrange(28), rnd.randrange(24))))
+            rels.append(Obj(m))
+        rnd.shuffle(rels) if rnd.random() < 0.5 else None
+        j, text = rels, dumps(rels)
     if status in (204, 205, 304):       # these replies carry no body by protocol (the client discards one)
         j, text = 'RAW', ''
     headers = []
